@@ -1,13 +1,26 @@
 /* models for U-fs-wrappers */
 static inline const char *vstr_c_str(const vstr *w) { return w->ptr; }
-static inline vstr vstr_cstr(const char *p) { vstr v; v.ptr = (char *)p; size_t n; v.len = n; v.cap = n; return v; }
 size_t g_k;
 vstr *g_path; unsigned g_info_calls, g_ck_calls, g_hash_calls; _Bool g_used_link;
 long nondet_long(void);
 const char *g_rl_buf, *g_rl_path, *g_hash_src; long g_rl_len;   /* ghost: where readlink put the target, whose link it read, its answer; the text the hasher was given */
 /* readlink(2): -1 for anything that is not a symbolic link, otherwise a length that fits the buffer */
+size_t g_hash_len;   /* ghost: how many bytes of text the hasher was given */
 static inline long verif_readlink(const char *p, char *buf, size_t n) {
   long r = nondet_long(); __CPROVER_assume(r >= -1 && (r == -1 || (size_t)r <= n));
   g_rl_buf = buf; g_rl_path = p; g_rl_len = r;
   return r;
 }
+
+/* std::string(const char *): the text up to the first NUL.  readlink() stores g_rl_len bytes of a path (no NUL among them) and does
+ * not terminate them, so for its buffer the length is g_rl_len exactly when the caller terminated the text there; reading on past
+ * an unterminated target is an over-read. */
+static inline vstr vstr_cstr(const char *p) {
+  vstr v; v.ptr = (char *)p; size_t n;
+  if (p == g_rl_buf && g_rl_len >= 0) {
+    __CPROVER_assert(p[g_rl_len] == 0, "[P:C13] the link target is terminated at the length readlink returned before it is read as a C string");
+    n = (size_t)g_rl_len;
+  }
+  v.len = n; v.cap = n; return v; }
+/* std::string(const char *, size_t): exactly n bytes */
+static inline vstr vstr_cstrn(const char *p, size_t n) { vstr v; v.ptr = (char *)p; v.len = n; v.cap = n; return v; }
